@@ -233,7 +233,7 @@ def _gen_static(rng, tier):
         if u < p_next:
             ops.append(["next"])
         elif u < p_next + p_re:
-            ops.append(["restatic", INTERVALS[int(rng.integers(0, len(INTERVALS)))]])
+            ops.append(["restatic", INTERVALS[int(rng.integers(0, len(INTERVALS)))] if rng.random() < 0.7 else "default"])
         elif u < p_next + p_re + p_cond:
             ops.append(["cond", int(rng.integers(0, 4))])
             have_cond = True
@@ -329,11 +329,11 @@ def gen_cases(seed, tier):
         m = 3 * (iv if iv != "inf" else 7) + 2
         cases.append({"kind": "static", "inner": "ru", "dom": {"dom": "interval", "a": 0.0, "b": 1.0}, "n": 6,
                       "interval": iv, "k": 0, "ops": [["sp"]] * m, "seed": int(rng.integers(0, 2**31))})
-        for iv2 in INTERVALS:
+        for iv2 in INTERVALS + ["default"]:
             for cut in (1, 2, 3, 5):
                 cases.append({"kind": "static", "inner": "ru", "dom": {"dom": "interval", "a": 0.0, "b": 1.0}, "n": 6,
                               "interval": iv, "k": 0,
-                              "ops": [["sp"]] * cut + [["restatic", iv2]] + [["sp"]] * (2 * (iv2 if iv2 != "inf" else 5) + 2),
+                              "ops": [["sp"]] * cut + [["restatic", iv2]] + [["sp"]] * (2 * (iv2 if iv2 not in ("inf", "default") else 5) + 2),
                               "seed": int(rng.integers(0, 2**31))})
         # the same boundaries with the device argument spelled differently from call to call / changing mid-interval
         for a, b in (("none", "tdev"), ("cpu", "cpu:0"), ("tdev", "cpu:0"), ("none", "cpu")):
@@ -536,8 +536,9 @@ def _run_static(c, res):
                     return
                 continue
             elif name == "restatic":
-                s2 = s.make_static(_iv(op[1]))
-                ref.make_static(_iv(op[1]))
+                # "default": make_static() without an argument - the documented default interval is infinity
+                s2 = s.make_static() if op[1] == "default" else s.make_static(_iv(op[1]))
+                ref.make_static(math.inf if op[1] == "default" else _iv(op[1]))
                 restaticised = True
                 _cnt(res, "static_make_static_calls")
                 if id(s2) not in wrapped:
